@@ -69,6 +69,12 @@ def roundNE (neg : Bool) (n d : Nat) : Dbl :=
   let sticky := if num % d = 0 then 0 else 1
   roundDyadic neg (2 * q + sticky) (-(s : Int) - 1)
 
+/-- nearest double to the rational `n/d`: the fraction is first brought to lowest terms, so the
+result depends on the value only (`roundRat neg (n*c) (d*c) = roundRat neg n d`) -/
+def roundRat (neg : Bool) (n d : Nat) : Dbl :=
+  let g := Nat.gcd n d
+  roundNE neg (n / g) (d / g)
+
 def ofInt (i : Int) : Dbl := roundDyadic (i < 0) i.natAbs 0
 
 def isNeg : Dbl → Bool
